@@ -492,6 +492,14 @@ func (g *GoBackNConn) sendPacketsForever() error {
 				if err := resendQueue(); err != nil {
 					return err
 				}
+
+			case <-g.pongTicker.Ticks():
+				// The pong ticker is only active after we have
+				// sent a ping, and any received packet pauses
+				// it again. So if it fires while we are waiting
+				// for the queue to free up, the peer has not
+				// answered our ping in time.
+				return errKeepaliveTimeout
 			}
 		}
 	}
